@@ -62,6 +62,11 @@ P_C13 == <<"C13">>
 WL_pack == <<M("C", 0, 1, 1197), M("C", 0, 2, 1198), M("C", 0, 3, 90), M("C", 0, 4, 1200)>>
 WL_pack_U == <<M("C", 0, 1, 1198), M("C", 0, 2, 1199), M("C", 0, 3, 90), M("C", 0, 4, 1200)>>
 WL_U_RO_sliced == <<M("C", 0, 1, 1201), M("C", 1, 2, 2401)>>
+\* a receive budget that holds everything the sender may have outstanding (12 bytes) and not one byte more: three small
+\* messages in separate packets, the first one lost or late, duplicates of the buffered ones (C09: duplicates cost no memory)
+Ch_RO12 == <<Ch(0, "RO", 12, 300)>>
+Ch_RU12 == <<Ch(0, "RU", 12, 300)>>
+WL_2_5_5 == <<M("C", 0, 1, 2), M("C", 0, 2, 5), M("C", 0, 3, 5)>>
 P_C15 == <<"C15">>
 P_C02 == <<"C02">>
 P_REL == <<"C01", "C02", "C03", "C08">>
